@@ -22,9 +22,40 @@ RULE = ("one case = query + 2-10 sketches + a reference organisation (one Linear
 def extra(chk, pkg):
     """thorough tier: the command line (`sourmash search | prefetch | gather`, --containment / --max-containment,
     --no-prefetch, --ignore-abundance) on files, one invocation per organisation, judged by the same oracle"""
-    if chk.tier != "thorough":
-        return
     import cli_lib, common
+    if chk.tier != "thorough":
+        # quick tier: a slice of cases through `sourmash search | prefetch | gather`, IN-PROCESS
+        # (sourmash.__main__.main(argv) inside adapters/cli_server.py), the collections written in all the ways the
+        # command line accepts them; rows against the in-process API of the same case and against each other
+        n = int(os.environ.get("VERIF_C08_QCLI", "18"))
+        FK = ["sig", "zip", "dir", "multi", "pl", "mf"]
+        cases, kl = [], []
+        for i in range(n):
+            c = partition.gen_case(chk.rng, partition.FLAVOURS[i % len(partition.FLAVOURS)])
+            kinds, j = {}, i
+            for l in c:
+                w = l.split()
+                if w[0] == "xdb" and w[2] in ("lin", "lazy", "zip") and len(w) > 3:
+                    kinds[w[1]] = FK[j % len(FK)]
+                    j += 1
+            cases.append(c)
+            kl.append(kinds)
+        res = streamlib.run_cases(partition, cases, pkg, procs=4, per_proc_min=5)
+        byc = {id(c): k for c, k in zip(cases, kl)}
+        jobs = [(c, i, byc[id(c)]) for c, i, m, cr in res if cr is None]
+        nb = 6
+        outs = common.par_map(cli_lib.quick_partition_batch,
+                              [([(c, i, k) for c, i, k in jobs[j::nb]], pkg) for j in range(nb) if jobs[j::nb]], procs=nb)
+        ninv = 0
+        for batch in outs:
+            for bad in batch:
+                chk.cov["evaluations"] += 1
+                for sig, msg, data in bad:
+                    chk.add_violation("cli", sig, msg, data)
+        chk.cov["cli_inprocess_cases"] = len(jobs)
+        chk.cov["cli_inprocess_invocations"] = sum(
+            sum(1 for l in c if l.split()[0] in ("searchc", "pfallc", "xgd")) for c, _, _ in jobs)
+        return
     n = int(os.environ.get("VERIF_C08_CLI", "64"))
     cases = [partition.gen_case(chk.rng, partition.FLAVOURS[i % len(partition.FLAVOURS)]) for i in range(n)]
     out = common.par_map(cli_lib.cli_partition_case, [(c, pkg) for c in cases], procs=16)
